@@ -69,6 +69,25 @@ func metaCompare(env *core.Env, root string, p, q string, strict bool, what stri
 	return &x
 }
 
+// affixFinding decides whether a difference is exactly finding F41: the program's output is what one gets when the
+// texts of the prefix and suffix lines of wrapped include files are treated as entries (excluded, rewritten by pairs).
+func affixFinding(env *core.Env, root string, p *ra.Program, bad *core.Verdict, spec string, o ra.InlineOpts) *core.Verdict {
+	if bad.Status != core.Violated {
+		return bad
+	}
+	o.AffixAsEntries = true
+	mirror, err := ra.Inline(p.Main, &p.Files, o)
+	if err != nil || mirror == spec {
+		return bad
+	}
+	w := core.Verdict{Counts: map[string]int{}}
+	if metaCompare(env, root, p.Main, mirror, false, "mirror", &w) == nil {
+		bad.Finding = "F41"
+		bad.Msg += "\n(the output is exactly what treating affix texts as entries gives: finding F41)"
+	}
+	return bad
+}
+
 func metaCheck(env *core.Env, cc core.Case) core.Verdict {
 	c := cc.(*metaCase)
 	if c.IO != nil {
@@ -103,7 +122,20 @@ func metaCheck(env *core.Env, cc core.Case) core.Verdict {
 		}
 		if bad := metaCompare(env, root, p.Main, q, c.Strict, c.Kind, &v); bad != nil {
 			bad.Features = v.Features
-			return *bad
+			return *affixFinding(env, root, p, bad, q, ra.InlineOpts{Includes: true})
+		}
+		if q2, err := ra.Inline(p.Main, &p.Files, ra.InlineOpts{Includes: true, OneLine: true}); err == nil && q2 != q {
+			// a file with affixes and a single entry, spelt without markers: the tool's own treatment of markers is
+			// not on both sides of this comparison
+			w := core.Verdict{Counts: map[string]int{}}
+			if bad := metaCompare(env, root, p.Main, q2, false, c.Kind+":one-line-spelling", &w); bad != nil {
+				if bad.Status == core.Violated && !strings.Contains(bad.Site, "compiles-differently") {
+					bad.Features = v.Features
+					return *affixFinding(env, root, p, bad, q2, ra.InlineOpts{Includes: true, OneLine: true})
+				}
+			} else {
+				v.Counts["one_line_spellings_compared"]++
+			}
 		}
 		if c.Kind == "except" && !c.Strict {
 			// duplicates in F: the statement fixes the relative order of the survivors, so the text must at least be stable
